@@ -180,8 +180,28 @@ def run_model(ctx, case):
     return r[e['out']]
 
 
+def sing_dist(name, dom, x0):
+    """distance from x0 to the nearest singularity of f (lower bound)"""
+    a = np.abs(x0)
+    if dom == 'pos':
+        return np.min(x0 + (1 if name == 'log1p' else 0))
+    if dom == 'nz':
+        return np.min(a)
+    if dom == 'tan':
+        return np.min(np.pi / 2 - a)
+    if dom == 'unit':
+        return np.min(1 - a)
+    if dom == '01':
+        return np.min(np.minimum(x0, 1 - x0))
+    if dom == 'gam':
+        return np.min(x0)
+    if name in ('arctan', 'tanh', 'expit'):
+        return 1.0
+    return 10.0
+
+
 def cauchy_oracle(case):
-    """Taylor coefficients of f(x(t)) by an FFT on a circle; None if not applicable"""
+    """Taylor coefficients of f(x(t)) by an FFT on a circle; returns (coefficients, usable orders) or None"""
     e = TABLE[case['fn']]
     f = e['f']
     if f is None:
@@ -189,9 +209,14 @@ def cauchy_oracle(case):
     x = np.array(case['x'])
     D = case['D']
     N = 64
-    # radius small enough that x(t) stays close to x0
-    hi = np.max(np.abs(x[1:])) if D > 1 else 0.0
-    r = 0.2 if hi <= 1.0 else 0.2 / hi
+    dist = float(sing_dist(case['fn'], e['dom'], x[0].real if np.iscomplexobj(x) else x[0]))
+    if np.iscomplexobj(x):
+        dist = min(dist, 0.5 * float(np.min(np.abs(x[0]))) if e['dom'] in ('pos', 'nz') else dist)
+    tot = float(np.max(np.sum(np.abs(x[1:]), axis=0))) if D > 1 else 0.0
+    # |x(t) - x0| <= r * sum_k |x_k| for r <= 1: keep the image of the circle inside half the distance
+    r = min(0.25, 0.45 * dist / max(tot, 1e-9))
+    if r < 0.02:
+        return None
     k = np.arange(N)
     t = r * np.exp(2j * np.pi * k / N)
     xt = np.zeros((N,) + x.shape[1:], dtype=complex)
@@ -199,11 +224,13 @@ def cauchy_oracle(case):
         xt = xt + x[d][None] * (t ** d).reshape((N,) + (1,) * (x.ndim - 1))
     with np.errstate(all='ignore'):
         ft = f(xt)
+    if not np.all(np.isfinite(ft)):
+        return None
     c = np.fft.fft(ft, axis=0) / N
     out = np.array([c[d] / r ** d for d in range(D)])
-    if not np.all(np.isfinite(out)):
-        return None
-    return out if case['cplx'] else out.real
+    noise = 1e-14 * float(np.max(np.abs(ft)))
+    usable = [d for d in range(D) if noise / r ** d < 1e-8]
+    return (out if case['cplx'] else out.real), usable
 
 
 def run_case(ctx, case):
@@ -228,9 +255,14 @@ def oracle_fails(case):
     o = cauchy_oracle(case)
     if o is None:
         return None
-    if not close(y, o, tol=1e-6):
+    coeffs, usable = o
+    if not usable:
+        return None
+    if y.shape != coeffs.shape:
+        return 'taylor-%s: result shape %s' % (case['fn'], y.shape)
+    if not close(y[usable], coeffs[usable], tol=1e-6):
         return 'taylor-%s: coefficients differ from (1/d!) d^d/dt^d f(x(t)) (Cauchy integral), max diff %s' % (
-            case['fn'], maxdiff(y, o))
+            case['fn'], maxdiff(y[usable], coeffs[usable]))
     return None
 
 
